@@ -75,6 +75,22 @@ def mk_agg(agg, dtype):
     return Mean()
 
 
+INPUT_KINDS = ["list", "gen", "tuple", "iter", "dictkeys"]
+
+
+def wrap_inputs(kind, lst):
+    """`inputs` is an Iterable[Tensor]: lists, tuples, generators, one-shot iterators and dict views"""
+    if kind == "tuple":
+        return tuple(lst)
+    if kind == "gen":
+        return (x for x in lst)
+    if kind == "iter":
+        return iter(lst)
+    if kind == "dictkeys":
+        return {x: None for x in lst}.keys()
+    return list(lst)
+
+
 def run_impl(case, k, dtype, agg_obj=None, inputs_override="same"):
     prog = ajlib.Program.from_json(case["prog"])
     ts = prog.build(dtype)
@@ -87,8 +103,9 @@ def run_impl(case, k, dtype, agg_obj=None, inputs_override="same"):
     handle = agg_o.register_forward_hook(
         lambda mod, args, out: res["agg_calls"].append(args[0].detach().to(torch.float64).tolist()))
     try:
+        kind = INPUT_KINDS[(case["id"] + (0 if k is None else k) + (dtype == torch.float32)) % len(INPUT_KINDS)]
         backward([ts[o] for o in case["outs"]], agg_o,
-                 inputs=None if inputs is None else [ts[i] for i in inputs],
+                 inputs=None if inputs is None else wrap_inputs(kind, [ts[i] for i in inputs]),
                  parallel_chunk_size=k)
     except Exception as e:  # noqa: BLE001
         res["error"] = type(e).__name__
